@@ -22,7 +22,7 @@ META = {
             "error exits included), with mj_island's map_itree2tree/island_ntree/island_itreeadr, and with the mj_sleep call inside every step of the pipeline runs. "
             "PARTIAL (observed on the implementation, not proved): the wake *conditions* (mj_kinematics1 pose mismatch, treeCanSleep, mj_wakeCollision, mj_wakeEquality; "
             "mj_wakeTendon not exercised) and the frozen qpos/qvel: checked by an oracle over long histories of piles of free boxes with random qpos/qvel/xfrc/qfrc edits, "
-            "a sphere dropped on or shot at sleeping piles, equality toggles and resets: cycle invariant after every forward and every step, sleeping trees keep bit-identical "
+            "a sphere dropped on or shot at sleeping piles (about two thirds of the sphere-box geom pairs and some box-box pairs are explicit contact pairs with their own parameters), equality toggles and resets: cycle invariant after every forward and every step, sleeping trees keep bit-identical "
             "qpos and zero qvel, a cycle wakes as a whole or not at all, poked / touched / equality-linked sleeping trees are awake after the next mj_forward, "
             "sleep transitions obey the island and mjMINAWAKE rules, and the sleep-enabled run equals the sleep-disabled run bit for bit while no tree is asleep. "
             "NOT COVERED: flexes, tendon wake, mocap contact wake, RK4, the numerical content of treeCanSleep beyond the independent re-evaluation in the driver.",
@@ -187,7 +187,7 @@ def run(ctx):
     # ---- parse
     coq_cases, coq_src = [], []
     pos = 0
-    stats = {"steps": 0, "sleep_events": 0, "wake_events": 0, "poke_wakes": 0, "contact_wakes": 0, "twin_compared": 0, "multi_tree_cycles": 0, "resyncs": 0}
+    stats = {"steps": 0, "sleep_events": 0, "wake_events": 0, "poke_wakes": 0, "contact_wakes": 0, "touch_wakes": 0, "twin_compared": 0, "multi_tree_cycles": 0, "resyncs": 0}
     distinct = set()
 
     def emit(c, src):
@@ -396,6 +396,8 @@ def scenario(ctx, cmd, lines, pos, emit, viol, stats):
                     stats["contact_wakes"] += 1
         for x in f.get("touch", []):
             t = int(x)
+            if (s[bullet] >= 0) != (s[t] >= 0):
+                stats["touch_wakes"] += 1
             if (fw[bullet] < 0) != (fw[t] < 0) and "touch" not in reported:
                 reported.add("touch"); fail("sphere penetrates box tree %d but only one of them is awake" % t, k, "both awake", fw, "wake_touch", "oracle wake events")
         # 4. sleep transitions
